@@ -108,7 +108,7 @@ def run_case(stream, seed, ctx, params):
     key = h(text)
     ref = impl.convert(text, ['--skip-deduplication'])
     args = [] if rng.random() < 0.7 else ['--skip-deduplication']
-    res = impl.convert(text, args) if args != ['--skip-deduplication'] else ref
+    res, cap = C.convert_capture(text, args)
     replay = {'deck': text, 'args': args}
     fails = []
     nflag = sum(1 for s in d.surfs if s.bc)
@@ -121,6 +121,13 @@ def run_case(stream, seed, ctx, params):
         return dict(hashes=[key], nontrivial_hashes=[key] if nflag else [], dist=dist, sample=None,
                     failures=[fail('violation', 'valid deck rejected: %s: %s' % (r.exc_type, (r.exc_msg or '')[:200]),
                                    {'stream': 'bc', 'class': cls, 'error': r.exc_type}, replay)])
+    if cap.bc_in is not None:
+        # model of recuperateBoundaryCondition / conversionBoundCond vs the written entries
+        mresp = ctx['drv'].ask('bcmodel ' + ' '.join('%d:%s:%d' % (i, lean.hx(f), p) for i, f, p in cap.bc_in))
+        want = 'ok ' + ' '.join('%s:%s' % (k, sid) for k, sid in parse_bc(res.t4)[1])
+        if mresp.strip() != want.strip():
+            fails.append(fail('disagreement', 'boundary-condition entries: code %s / model %s' % (want[:200], mresp[:200]),
+                              {'stream': 'bc', 'stage': 'bcmodel'}, replay))
     refdefs = surf_defs(ref.t4)          # MCNP number ↦ definition, for surfaces that bound a converted cell
     defs = surf_defs(res.t4)
     count, ents = parse_bc(res.t4)
